@@ -583,6 +583,9 @@ def check(ctx: Ctx):
     ctx.expect("MUTDEFAULT", 5)
     ctx.expect("STATELESS", 1)
     check_locators(ctx)
+    from ..rules import support as _sup19
+
+    _sup19.check_result_layout(ctx)
     # the class of a refined result is the class refine_droplet returns, with one process or many: both arms of
     # refine_droplets hand out the callee's own results
     from . import c15 as _c15
